@@ -197,6 +197,16 @@ def rand_shape(rng, kind, m, nreads):
     return {"nInd": nind, "trios": trios, "m": m, "reads": reads}
 
 
+def gap_shape(rng, kind):
+    base = rand_shape(rng, kind, 4, 0)
+    reads = []
+    for lo, hi in ((1, 2), (3, 4)):
+        for _ in range(rng.randint(2, 3)):
+            reads.append({"ind": rng.randint(1, base["nInd"]), "cells": [[lo, rng.randint(0, 1)], [hi, rng.randint(0, 1)]]})
+    reads.sort(key=lambda r: r["cells"][0][0])
+    return dict(base, reads=reads)
+
+
 QUALS = [0, 1, 2, 5, 10, 10, 20, 20, 30, 40, 60, 93, 255, 256, 300]
 PRIOR_ATOMS = [1, 1, 2, 3, 5, 10, 0.5, 0.1, 0.01, 1e-6]
 RCS = [0, 1, 3, 10, 10, 40, 100]
@@ -631,6 +641,9 @@ def scenarios(ctx):
             if kind == "quartet" and rep % 2 == 1:
                 continue
             shapes.append((rand_shape(rng, kind, m, nr), 10 if q else 20))
+    # complete coverage gaps: no read links column 2 with column 3 (what is known about the transmission must cross the gap)
+    for kind in (["quartet", "trio"] if q else ["quartet"] * 8 + ["trio"] * 6 + ["single"] * 4):
+        shapes.append((gap_shape(rng, kind), 10 if q else 16))
     if not q:
         for _ in range(20):
             shapes.append((rand_shape(rng, "single", 10, 4), 20))
